@@ -22,6 +22,14 @@ another stage of the file).
 
 Numeric clause decided by projection (not by TLC): `rl * fs` and `meta.fileTimeSecs * fs` are floats; they
 are projected to a frame count when within 1e-6 (relative) of an integer, else to a flag value.
+
+Robustness (exit 2 is not a detection): every observable of an opened reader is taken defensively.  ns / shape / nc that
+are None, strings, NaN, fractions, arrays, beyond TLC's 32 bits, missing or raising are NOCOUNT (equal to no frame count:
+Exposed:ns / Exposed:shape); rl / fileTimeSecs that are not finite numbers project to NOFRAMES (Duration); a read whose
+result is not an array of rows (scalar, str, a missing sync part) has rows -3 and unequal values (ReadRows / ReadValues),
+as has every read when sample2volts offers no per-channel factors; close() / __exit__ that raise end the opening as
+`raised` with exc close:<type> (OpenSucceeds: the caller's `with` block / close raises).  Exceptions of the harness's own
+logic are not caught.
 """
 import copy
 import functools
@@ -81,15 +89,55 @@ def _meta_text(nc, m, fs, stream="ap", form="exact", size=None, fts_text=None):
     return txt.replace("@FTS@", fts_text or _fts_text(m, fs)).replace("@FSB@", str(fsb))
 
 
+TLCMAX = 2 ** 31 - 1        # TLC integers are 32-bit: what the real code hands out is projected into that range
+NOCOUNT = -4                # "not a sample count" (None, a string, NaN, a fraction, an array, beyond 32 bits, raised): equals no count
+NOFRAMES = (-2, False)      # a duration that is not a finite number of frames
+
+
 def _proj_frames(x):
-    """projection of a duration x fs onto a frame count: <<whole part, is whole>>"""
+    """projection of a duration x fs onto a frame count: <<whole part, is whole>>; total: a duration that is not a
+    finite real number within TLC's integers is NOFRAMES (no frame count is its projection)"""
     if x is None:
         return -1, True
-    x = float(x)
+    try:
+        x = float(x)
+    except (TypeError, ValueError, OverflowError):
+        return NOFRAMES
+    if not np.isfinite(x) or abs(x) >= TLCMAX:
+        return NOFRAMES
     k = int(round(x))
     if abs(x - k) <= 1e-6 * max(1.0, abs(x)):
         return k, True
     return int(np.floor(x)), False
+
+
+def _count(get):
+    """a sample / channel count observed from the real code (`get` evaluates the attribute): the integer it is, or NOCOUNT
+    when the library raised or handed out something that is not one whole number (the clauses compare it with the count of
+    complete frames, which it then does not equal)"""
+    try:
+        v = get()
+        if v is None or isinstance(v, (str, bytes, bool, np.bool_)):
+            return NOCOUNT
+        k = int(v)
+        if not bool(k == v) or abs(k) >= TLCMAX:
+            return NOCOUNT
+        return k
+    except Exception:
+        return NOCOUNT
+
+
+def _fts_frames(sr, fs):
+    """projection of meta.fileTimeSecs * fs of the reader (absent key: <<-1, TRUE>>; no metadata / not a number: NOFRAMES)"""
+    try:
+        fts = sr.meta.get("fileTimeSecs")
+        if fts is None:
+            return _proj_frames(None)
+        if isinstance(fts, (str, bytes, bool)):      # (read_meta_data hands numbers out as numbers)
+            return NOFRAMES
+        return _proj_frames(float(fts) * fs)
+    except Exception:
+        return NOFRAMES
 
 
 def _selectors(q, large=False):
@@ -135,6 +183,7 @@ def _expected(content, q, nc, sel):
 READ_APIS_SLICE = ["getitem", "getitem2", "read", "readsync", "read_samples", "read_sync"]
 READ_APIS_INDEX = ["getitem", "getitem2", "read"]
 DEFAULT_READ = ("slice", 0, 10000)      # what sr.read() without arguments selects
+SYNC_APIS = ("readsync", "read_samples", "read_sync", "read_default")      # calls that hand out the sync part as well
 
 
 def _sync_bits(col):
@@ -221,7 +270,14 @@ def _put(files):
 def _do_reads(sr, selectors, apis, content, q, nc, stream):
     """-> (reads [[kind, a, b, rows observed, values equal the file]], first unexpected exception)"""
     out, exc = [], ""
-    s2v = sr.sample2volts
+    # the calibration the values are compared through is the reader's own (C01 judges it): one factor per channel; a
+    # reader that has none to offer (raises, None, another length, not numbers) hands out values nobody can tie to the file
+    try:
+        s2v = sr.sample2volts
+        if np.shape(s2v) != (nc,) or np.asarray(s2v).dtype.kind not in "fiu":
+            s2v = None
+    except Exception as e:
+        s2v, exc = None, f"sample2volts:{type(e).__name__}"
     for j, sel in enumerate(selectors):
         api = apis[j] if apis else "getitem"
         exp = _expected(content, q, nc, sel)
@@ -235,23 +291,30 @@ def _do_reads(sr, selectors, apis, content, q, nc, stream):
             exc = exc or f"read:{type(e).__name__}"
             continue
         rows, eq = -3, True
-        if got is not None:
-            got = np.asarray(got)
-            rows = int(got.shape[0]) if sel[0] == "slice" else 1
-            eq = False
-            if exp is not None and got.shape == exp.shape:
-                volts = exp.astype(np.float32)
-                volts *= s2v
-                eq = bool(np.array_equal(got, volts))
-        if sy is not None:
-            # the sync part of a read covers the same samples: as many rows, the bits of the sync word of each
-            sy = np.asarray(sy)
-            if got is None:
-                rows = int(sy.shape[0])
-            elif sy.shape[0] != rows:
-                rows = -3
-            if stream != "nidq" and exp is not None:
-                eq = eq and bool(np.array_equal(sy, _sync_bits(exp[:, -1])))
+        try:        # decoding of what the library returned: anything that is not an array of rows is "no rows, other values"
+            if got is not None:
+                got = np.asarray(got)
+                rows = (int(got.shape[0]) if got.ndim else -3) if sel[0] == "slice" else 1
+                eq = False
+                if exp is not None and s2v is not None and got.shape == exp.shape and got.dtype.kind in "fiu":
+                    volts = exp.astype(np.float32)
+                    volts *= s2v
+                    eq = bool(np.array_equal(got, volts))
+            if sy is None and api in SYNC_APIS:
+                rows = -3       # the call hands out the sync part of the same samples: there is none
+            if sy is not None:
+                # the sync part of a read covers the same samples: as many rows, the bits of the sync word of each
+                sy = np.asarray(sy)
+                nsy = int(sy.shape[0]) if sy.ndim else -3
+                if got is None:
+                    rows = nsy
+                elif nsy != rows:
+                    rows = -3
+                if stream != "nidq" and exp is not None:
+                    eq = eq and bool(np.array_equal(sy, _sync_bits(exp[:, -1])))
+        except (TypeError, ValueError, IndexError, AttributeError, OverflowError) as e:
+            rows, eq = -3, False
+            exc = exc or f"read:undecodable:{type(e).__name__}"
         out.append([sel[0], sel[1], sel[2], rows, eq])
     return out, exc
 
@@ -264,6 +327,7 @@ def _in_child(fn, selectors):
     if pid == 0:
         code = 1
         try:
+            signal.alarm(600)       # a read that never returns ends like one that killed the process (SIGALRM)
             os.close(rd)
             with os.fdopen(wr, "w") as fid:
                 json.dump(fn(), fid)
@@ -313,8 +377,7 @@ def observe(binfile, case, fs, nc, content, selectors, early=None, env=None, api
                 # opened a first time on the earlier stage of the file; what the object then holds of the duration is the
                 # `meta` of the step that is judged
                 sr = _build(cls, target, aux, style, quiet, False)
-                fts = sr.meta.get("fileTimeSecs")
-                t["meta"] = _proj_frames(None if fts is None else fts * fs)[0]
+                t["meta"] = max(_fts_frames(sr, fs)[0], -1)      # (no number held: like no duration held)
                 if hist == "reclose":
                     sr.close()
             else:
@@ -360,16 +423,18 @@ def observe(binfile, case, fs, nc, content, selectors, early=None, env=None, api
         return t
     try:
         t["outcome"] = "opened"
-        t["ns"] = int(sr.ns)
-        t["rows"] = int(sr.shape[0])
-        t["ncok"] = bool(sr.shape[1] == nc and sr.nc == nc)
+        # every observable is taken defensively: what the real code hands out is compared with the count of complete
+        # frames; a value that is no count (None, NaN, a string, an array, a property that raises) equals none
+        t["ns"] = _count(lambda: sr.ns)
+        t["rows"] = _count(lambda: tuple(sr.shape)[0])
+        t["ncok"] = bool(_count(lambda: len(tuple(sr.shape))) == 2 and _count(lambda: tuple(sr.shape)[1]) == nc
+                         and _count(lambda: sr.nc) == nc)
         try:
             rlx = float(sr.rl) * fs
-        except (TypeError, ValueError):     # a duration that is not a number matches no sample count
+        except Exception:     # a duration that is not a number (or cannot be had) matches no sample count
             rlx = 0.5
         t["rlf"] = _proj_frames(rlx)[0] if _proj_frames(rlx)[1] else -2
-        fts = sr.meta.get("fileTimeSecs")
-        t["ftsq"], t["ftsw"] = _proj_frames(None if fts is None else fts * fs)
+        t["ftsq"], t["ftsw"] = _fts_frames(sr, fs)
         reads = functools.partial(_do_reads, sr, selectors, apis, content, q, nc, stream)
         # an object that was opened before may, after a change of open(), still look at the map of the earlier stage of the
         # file (closed, or longer than the file now is): touching it kills the interpreter instead of raising, so these
@@ -377,13 +442,19 @@ def observe(binfile, case, fs, nc, content, selectors, early=None, env=None, api
         t["reads"], exc = _in_child(reads, selectors) if (early is not None and hist in ("reopen", "reclose")) else reads()
         t["exc"] = t["exc"] or exc
     finally:
-        if entered:
-            sr.__exit__(None, None, None)
-        else:
-            sr.close()
-        if other is not None:
-            other.close()
-        del sr
+        # leaving the `with` block / closing is the end of the opening: a reader (or the bystander) that cannot be closed
+        # raised in the caller's hands all the same (OpenSucceeds:close:<exception>)
+        cexc = ""
+        for o, how in ((sr, "__exit__" if entered else "close"), (other, "close")):
+            if o is None:
+                continue
+            try:
+                o.__exit__(None, None, None) if how == "__exit__" else o.close()
+            except Exception as e:
+                cexc = cexc or f"{how}:{type(e).__name__}"
+        if cexc:
+            t["outcome"], t["exc"] = "raised", cexc
+        sr = None
     return t
 
 
@@ -880,6 +951,10 @@ def model_cex_scenarios(r):
 def selftest(ctx, trs, bad):
     cands = [i for i, t in enumerate(trs) if i not in bad and t["outcome"] == "opened" and len(t["reads"]) >= 4][:60]
     if len(cands) < 12:
+        if ctx.violations or ctx.known_hits:
+            # (a tree on which hardly any opening is accepted: the verdicts stand, there is nothing to corrupt)
+            ctx.cov["selftest_corrupted_traces_rejected"] = "skipped: too few accepted traces on a violating tree"
+            return
         raise tlc.TLCError("selftest: not enough accepted traces")
     mut, kinds = [], []
     for j, i in enumerate(cands[:36]):
